@@ -40,6 +40,10 @@ type runner struct {
 	nBuildOps, nReads, nOracle, nTraces int64
 	fixedLevel                          int
 	scratch                             []byte // backing store of the fixed-size builders
+
+	// dest.go: destination independence / input immutability / aliasing probes
+	inSave  []byte // copy of the unread bytes taken before an op is probed
+	noProbe bool   // set while output that was already probed is read again (fixed-size Builder family)
 }
 
 func (r *runner) e(i int) *entry { return alphabet[r.lab[i]] }
@@ -612,6 +616,8 @@ func (r *runner) fixedFamily(grow, ref []byte, readable bool) []*failure {
 						if !s.Skip(cf.prefix) {
 							return &failure{sig: "fixed-size Builder, capacity = needed: output shorter than the initial buffer"}
 						}
+						r.noProbe = true
+						defer func() { r.noProbe = false }()
 						return r.readLevel(&s, r.sh.roots, ref, 0)
 					})
 					if f != nil {
@@ -698,6 +704,12 @@ func (r *runner) readLevel(s *cryptobyte.String, ids []int, ref []byte, v int) *
 		descend := false
 		r.nReads++
 		r.nOracle++
+
+		if !r.noProbe {
+			if f := r.probeOp(*s, e, encLen, v); f != nil {
+				return f
+			}
+		}
 
 		if e.optional {
 			if f, nj, noff, stop := r.readOptional(s, ids, j, ref, off, levelIn, v); f != nil || stop {
